@@ -361,6 +361,9 @@ def explore(item, tier, seed):
         for idx, lab, pr, m in _it.chain(F.family("quick"), F.view_family()):
             if idx % (n * (1 if tier == "thorough" else 4)) == i:
                 record(check_real(pr, m, rep, resolve=True), {"mode": "real", "label": lab, "problem": pr, "method": m, "resolve": True})
+        for idx, lab, pr, m in F.scaled_family():
+            if idx % n == i:
+                record(check_real(pr, m, rep, resolve=True), {"mode": "real", "label": lab, "problem": pr, "method": m, "resolve": True})
     elif kind == "E3":
         for k, (lab, pr1, pr2, m) in enumerate(e3_cases()):
             if k % n == i:
